@@ -202,7 +202,7 @@ def design(ctx, thorough):
     # cancel-mode close and orphaning by DBClose
     go("qo", design_cast(["w1"], ["s1"], [["k2"]], k12, 2, 1), Ready=tla_set(["s1"]), AllowOrphan="TRUE")
     # a writer with more authority opens (gate by gate) while the other one is writing
-    go("ql", design_cast(["w1", "w2"], ["s1"], [["k1"]], k12, 2, 0, late=("w1",)), Ready=tla_set(["s1"]),
+    go("ql", design_cast(["w1", "w2"], ["s1"], [["k1"]], k12, 2 if thorough else 1, 0, late=("w1",)), Ready=tla_set(["s1"]),
        CloseModes=tla_set(["graceful"]))
     # an indexed group under split authority (index holder / data-channel holder), hand-over at close
     go("qg", design_cast(["w1", "w2"], ["s1"], [["k2"]], k12, 2, 0, split=True), Ready=tla_set(["s1"]),
